@@ -26,7 +26,7 @@ CASES = {"quick": 160, "thorough": 20000}
 MIN_CASES = {"quick": 40, "thorough": 800}
 REQUIRED_COUNTERS = ["models_built", "equations_evaluated", "config:input", "config:legal_translate", "config:legal_slide", "config:legal_shrink_branch",
                      "config:illegal_outside", "config:illegal_ratio", "config:illegal_area", "config:illegal_gap", "config:illegal_overhang", "config:illegal_same_side_overlap", "config:illegal_swapped_order",
-                     "config:illegal_inter_overlap", "config:illegal_hard_reshaped", "config:illegal_hard_branch_offset", "config:illegal_fixed_moved",
+                     "config:illegal_inter_overlap", "config:illegal_inter_overlap_shallow", "config:illegal_hard_reshaped", "config:illegal_hard_branch_offset", "config:illegal_fixed_moved",
                      "kind:soft", "kind:hard_multi", "kind:hard_single", "kind:fixed"]
 SOFT_DEADLINE = {"quick": 240, "thorough": 3300}
 LEGALITY_GROUPS = {"Area", "Inter", "Fix", "Bounds", "Shapes", "Attach", "Intra", "Rid"}
@@ -351,6 +351,15 @@ def variations(case, rng):
             dx = (o["slot"][0] - mod["slot"][0]) * pitch + 0.5 * u
             dy = (o["slot"][1] - mod["slot"][1]) * pitch + 0.5 * u
             out.append(("illegal_inter_overlap", False, {"Inter", "Bounds"}, translate(base, mod["name"], dx, dy)))
+            # shallow on one axis (0.2 unit), deep on the other (trunks aligned): still far above the smoothing term
+            t_o, t_m = o["rects"][0], mod["rects"][0]
+            if rng.random() < 0.5:
+                dx2 = (t_o[0] - t_o[2] / 2 - t_m[2] / 2 + 0.2 * u) - t_m[0]
+                dy2 = t_o[1] - t_m[1]
+            else:
+                dx2 = t_o[0] - t_m[0]
+                dy2 = (t_o[1] - t_o[3] / 2 - t_m[3] / 2 + 0.2 * u) - t_m[1]
+            out.append(("illegal_inter_overlap_shallow", False, {"Inter", "Bounds"}, translate(base, mod["name"], dx2, dy2)))
     hards = by_kind.get("hard_multi", []) + by_kind.get("hard_single", [])
     if hards:
         mod = rng.choice(hards)
